@@ -111,6 +111,9 @@ var families = []family{
 	{"group", "nocoord", 12, func(r *rand.Rand) map[string]int {
 		return map[string]int{"np": 1, "nmsg": 0, "buf": pick(r, 0, 1), "reterr": pick(r, 0, 1), "shared": pick(r, 0, 1)}
 	}},
+	{"group", "coordlost", 20, func(r *rand.Rand) map[string]int {
+		return map[string]int{"np": 1, "nmsg": 0, "buf": pick(r, 0, 1), "reterr": pick(r, 0, 1), "shared": pick(r, 0, 1), "mode": pick(r, 0, 1, 1, 2), "heal": pick(r, 0, 0, 1), "nerr": pick(r, 2, 4, 8)}
+	}},
 	{"group", "silentjoin", 8, func(r *rand.Rand) map[string]int {
 		return map[string]int{"np": 1, "nmsg": 0, "buf": pick(r, 0, 1), "reterr": pick(r, 0, 1), "shared": pick(r, 0, 1)}
 	}},
